@@ -110,12 +110,70 @@ theorem closeAll_openSet (b : Backend) (rs : List Rid) :
 
 /-! ### handle_deliver / handle_spawn / start_process -/
 
-@[simp] theorem handleDeliver_owner (s : Env) (t : Pid) (v : Val) :
-    (handleDeliver s t v).owner = insertAll s.owner v.resources t := by
-  unfold handleDeliver; simp only [transfer_eq]; split <;> rfl
-@[simp] theorem handleDeliver_backend (s : Env) (t : Pid) (v : Val) :
-    (handleDeliver s t v).backend = s.backend := by
-  unfold handleDeliver; simp only; split <;> rfl
+/-- The ids a delivery passes to `close_resource`: if the target has already terminated, everything
+it would own after the transfer (normally: what the message carries). -/
+def deliverClosed (s : Env) (t : Pid) (v : Val) : List Rid :=
+  if s.exited.contains t then ownedBy (insertAll s.owner v.resources t) t else []
+
+theorem deliverClosed_alive {s : Env} {t : Pid} (v : Val) (h : s.exited.contains t = false) :
+    deliverClosed s t v = [] := by
+  unfold deliverClosed; simp only [h, Bool.false_eq_true, ↓reduceIte]
+
+theorem deliverClosed_dead {s : Env} {t : Pid} (v : Val) (h : s.exited.contains t = true) :
+    deliverClosed s t v = ownedBy (insertAll s.owner v.resources t) t := by
+  unfold deliverClosed; simp only [h, ↓reduceIte]
+
+theorem handleDeliver_owner (s : Env) (t : Pid) (v : Val) :
+    (handleDeliver s t v).owner
+      = eraseAll (insertAll s.owner v.resources t) (deliverClosed s t v) := by
+  unfold handleDeliver deliverClosed
+  simp only [transfer_eq]
+  by_cases h : s.exited.contains t = true
+  · simp only [h, ↓reduceIte]; split <;> rfl
+  · simp only [h, Bool.false_eq_true, ↓reduceIte, eraseAll]; split <;> rfl
+
+theorem handleDeliver_backend (s : Env) (t : Pid) (v : Val) :
+    (handleDeliver s t v).backend = closeAll s.backend (deliverClosed s t v) := by
+  unfold handleDeliver deliverClosed
+  simp only [transfer_eq]
+  by_cases h : s.exited.contains t = true
+  · simp only [h, ↓reduceIte]; split <;> rfl
+  · simp only [h, Bool.false_eq_true, ↓reduceIte, closeAll]; split <;> rfl
+
+theorem handleDeliver_frame (s : Env) (t : Pid) (v : Val) :
+    (handleDeliver s t v).persistent = s.persistent ∧ (handleDeliver s t v).nextPid = s.nextPid ∧
+    (handleDeliver s t v).exited = s.exited ∧ (handleDeliver s t v).router = s.router := by
+  unfold handleDeliver
+  simp only
+  by_cases h : s.exited.contains t = true
+  · simp only [h, ↓reduceIte]; split <;> exact ⟨rfl, rfl, rfl, rfl⟩
+  · simp only [h, Bool.false_eq_true, ↓reduceIte]; split <;> exact ⟨rfl, rfl, rfl, rfl⟩
+
+theorem handleDeliver_out_cases (s : Env) (t : Pid) (v : Val) :
+    (handleDeliver s t v).out = s.out ∨ (handleDeliver s t v).out = s.out ++ [.deliverMessage t] := by
+  unfold handleDeliver
+  simp only
+  by_cases h : s.exited.contains t = true
+  · simp only [h, ↓reduceIte]; split
+    · exact .inl rfl
+    · exact .inr rfl
+  · simp only [h, Bool.false_eq_true, ↓reduceIte]; split
+    · exact .inl rfl
+    · exact .inr rfl
+
+/-! ### handle_process_exited -/
+
+@[simp] theorem handleProcessExited_owner (s : Env) (p : Pid) :
+    (handleProcessExited s p).owner = eraseAll s.owner (ownedBy s.owner p) := rfl
+@[simp] theorem handleProcessExited_backend (s : Env) (p : Pid) :
+    (handleProcessExited s p).backend = closeAll s.backend (ownedBy s.owner p) := rfl
+@[simp] theorem handleProcessExited_out (s : Env) (p : Pid) : (handleProcessExited s p).out = s.out := rfl
+@[simp] theorem handleProcessExited_exited (s : Env) (p : Pid) :
+    (handleProcessExited s p).exited = p :: s.exited := rfl
+@[simp] theorem handleProcessExited_persistent (s : Env) (p : Pid) :
+    (handleProcessExited s p).persistent = s.persistent := rfl
+@[simp] theorem handleProcessExited_nextPid (s : Env) (p : Pid) :
+    (handleProcessExited s p).nextPid = s.nextPid := rfl
 
 @[simp] theorem handleSpawn_owner (s : Env) (c : Pid) (caps : List Val) (arg : Val) :
     (handleSpawn s c caps arg).owner
